@@ -67,6 +67,11 @@ def oracle(case):
         out.cls("excluded:text-sample-with-both-quote-kinds")
         if "file" not in src and not case.get("force"):
             return out
+    if text_hit_by_subs(las0):
+        out.excluded = True  # open finding D44
+        out.cls("excluded:text-sample-digit-hyphen-or-comma-digit")
+        if "file" not in src and not case.get("force"):
+            return out
     if text_with_blanks(las0):
         out.cls("text-sample-with-blanks")
     feats = features(las0, opts)
@@ -80,7 +85,7 @@ def oracle(case):
     r_prev = read_text(t1, **rk)
     tag = dlm_tag(las0) + "|" + ("text-with-blanks" if text_with_blanks(las0) else "text-curve" if "text-curve" in feats else "numeric")
     if is_raised(r_prev):
-        out.fail("text-sample-with-both-quote-kinds-written-verbatim" if text_unquotable(las0) else "text-sample-with-blanks-written-unquoted" if text_with_blanks(las0) else "reread-raises|%s|%s" % (r_prev.bucket, tag), "lasio cannot read its own output: %s\n%s\n--- written text ---\n%s"
+        out.fail("text-sample-with-both-quote-kinds-written-verbatim" if text_unquotable(las0) else "text-sample-rewritten-by-data-line-substitutions" if text_hit_by_subs(las0) else "text-sample-with-blanks-written-unquoted" if text_with_blanks(las0) else "reread-raises|%s|%s" % (r_prev.bucket, tag), "lasio cannot read its own output: %s\n%s\n--- written text ---\n%s"
                  % (r_prev, inputs.describe(src)[:600], t1[:2500]))
         return out
     c1 = canon.from_las(r_prev)
@@ -92,7 +97,8 @@ def oracle(case):
             return out
         rk_las = read_text(tk, **rk)
         if is_raised(rk_las):
-            out.fail("reread-raises|%s|%s" % (rk_las.bucket, tag), "cycle %d: %s\n--- text ---\n%s" % (k, rk_las, tk[:2500]))
+            out.fail("text-sample-rewritten-by-data-line-substitutions" if text_hit_by_subs(las0) else "reread-raises|%s|%s" % (rk_las.bucket, tag),
+                     "cycle %d: %s\n--- text ---\n%s" % (k, rk_las, tk[:2500]))
             return out
         ck = canon.from_las(rk_las)
         d = canon.diff(ck, c1, names=("cycle%d" % k, "cycle1"))
@@ -120,6 +126,19 @@ def text_with_blanks(las):
         if c.data.dtype.kind in "USO":
             for x in c.data:
                 if isinstance(x, str) and (x == "" or any(ch.isspace() for ch in x)):
+                    return True
+    return False
+
+
+def text_hit_by_subs(las):
+    """A text sample with a digit on both sides of a hyphen or comma is rewritten by the reader's data-line
+    substitutions (run-on hyphens, decimal comma), which know nothing about text columns (open finding D44)."""
+    import re
+
+    for c in las.curves:
+        if c.data.dtype.kind in "USO":
+            for x in c.data:
+                if isinstance(x, str) and re.search(r"\d[-,]\d", x):
                     return True
     return False
 
